@@ -58,6 +58,14 @@ fn status_name(s: Status) -> &'static str {
 
 /// encoding: 0 short, 1 short+Le, 2 extended, 3 extended+Le.  None if not expressible.
 fn frame(cla: u8, ins: u8, p1: u8, p2: u8, data: &[u8], enc: u8, out: &mut Vec<u8>) -> bool {
+    // the expected-length field varies with the header (it must never influence the decision)
+    let le: u16 = match (p2 ^ ins) % 5 {
+        0 => 0,
+        1 => 1,
+        2 => 0x00ff,
+        3 => 0x0100,
+        _ => 0xffff,
+    };
     out.clear();
     out.extend_from_slice(&[cla, ins, p1, p2]);
     let n = data.len();
@@ -79,7 +87,7 @@ fn frame(cla: u8, ins: u8, p1: u8, p2: u8, data: &[u8], enc: u8, out: &mut Vec<u
                 out.push(n as u8);
                 out.extend_from_slice(data);
             }
-            out.push(0x00); // Le = 256
+            out.push(le as u8); // Le (0 = 256)
         }
         2 => {
             if n == 0 || n > 65535 {
@@ -98,7 +106,7 @@ fn frame(cla: u8, ins: u8, p1: u8, p2: u8, data: &[u8], enc: u8, out: &mut Vec<u
                 out.extend_from_slice(&(n as u16).to_be_bytes());
                 out.extend_from_slice(data);
             }
-            out.extend_from_slice(&[0x00, 0x00]); // Le = 65536
+            out.extend_from_slice(&le.to_be_bytes()); // Le (0 = 65536)
         }
     }
     true
@@ -241,7 +249,12 @@ fn judge(rep: &mut Rep, cnt: &mut Counters, cla: u8, ins: u8, p1: u8, p2: u8, da
 }
 
 fn make_data(rng: &mut Rng, len: usize, kh_mode: u8) -> Vec<u8> {
-    let mut d = rng.bytes(len);
+    let mut d = crate::schema::gen_bytes_content(rng, len);
+    if len >= 64 && rng.chance(1, 16) {
+        // value relation: application parameter equal to the challenge
+        let (a, b) = d.split_at_mut(32);
+        b[..32].copy_from_slice(a);
+    }
     if len > 64 {
         let consistent = (len - 65) as i64;
         let v = match kh_mode {
